@@ -245,6 +245,19 @@ func main() {
 				}
 				return true
 			})
+			// other ways to take a pack from the channel: `for p := range ch`, a bare `<-ch` (also inside a select)
+			ast.Inspect(fl.Body, func(m ast.Node) bool {
+				if rs, ok := m.(*ast.RangeStmt); ok && key(rs.X) == chName {
+					receives = true
+					if got == "" {
+						got = ident(rs.Key)
+					}
+				}
+				if u, ok := m.(*ast.UnaryExpr); ok && u.Op == token.ARROW && key(u.X) == chName {
+					receives = true
+				}
+				return true
+			})
 			ast.Inspect(fl.Body, func(m ast.Node) bool {
 				if rs, ok := m.(*ast.RangeStmt); ok && got != "" && ident(rs.X) == got {
 					walks = true
@@ -408,7 +421,18 @@ func main() {
 	rewindRec, rewindPool, resetSize, resetCount, freshMaps, recsDerived, chMade := false, false, false, false, false, false, false
 	for i, st := range way {
 		switch x := st.(type) {
+		case *ast.IncDecStmt:
+			if ident(x.X) == recIdxName || ident(x.X) == poolIdxName {
+				die(fmt.Errorf("NewUnspentDb: `%s` between a failed attempt and the retry is not understood", key(x)))
+			}
 		case *ast.AssignStmt:
+			if x.Tok != token.ASSIGN || len(x.Lhs) != len(x.Rhs) {
+				for _, l := range x.Lhs {
+					if ident(l) == recIdxName || ident(l) == poolIdxName {
+						die(fmt.Errorf("NewUnspentDb: `%s` between a failed attempt and the retry is not understood", key(x)))
+					}
+				}
+			}
 			if len(x.Lhs) == len(x.Rhs) && x.Tok == token.ASSIGN {
 				// `a, b = 0, 0` assigns pairwise (the right-hand sides here are constants or do not read a or b)
 				for j := range x.Lhs {
@@ -452,6 +476,153 @@ func main() {
 	if !recsDerived || !chMade {
 		die(fmt.Errorf("NewUnspentDb: every attempt must make its channel and derive `%s = %s[%s][:]` before the record loop (derived %v, channel %v)", recsName, poolName, poolIdxName, recsDerived, chMade))
 	}
+	// ---- the bounds on what the file can make the loader ask memory for (fix a45f580a): the header's record count and
+	// every record length are compared with the size of the file before maps are pre-sized / Memory_Malloc is called
+	mentions := func(n ast.Node, name string) bool {
+		return has(n, func(m ast.Node) bool { id, ok := m.(*ast.Ident); return ok && id.Name == name })
+	}
+	writes := func(n ast.Node, name string) int {
+		cnt := 0
+		ast.Inspect(n, func(m ast.Node) bool {
+			switch x := m.(type) {
+			case *ast.AssignStmt:
+				for _, l := range x.Lhs {
+					if ident(l) == name {
+						cnt++
+					}
+				}
+			case *ast.IncDecStmt:
+				if ident(x.X) == name {
+					cnt++
+				}
+			case *ast.UnaryExpr:
+				if x.Op == token.AND && ident(x.X) == name {
+					cnt++
+				}
+			}
+			return true
+		})
+		return cnt
+	}
+	endsInGoto := func(b *ast.BlockStmt, label string) bool {
+		return b != nil && len(b.List) > 0 && isGoto(b.List[len(b.List)-1], label)
+	}
+	exceeds := func(cond ast.Expr, a, b string) bool { // a > b  or  b < a
+		be, ok := cond.(*ast.BinaryExpr)
+		if !ok {
+			return false
+		}
+		return (be.Op == token.GTR && ident(be.X) == a && ident(be.Y) == b) || (be.Op == token.LSS && ident(be.X) == b && ident(be.Y) == a)
+	}
+	ofVar, statVar, sizeVar := "", "", ""
+	for _, st := range top[iRedo:iLoop] {
+		ast.Inspect(st, func(n ast.Node) bool {
+			as, ok := n.(*ast.AssignStmt)
+			if !ok || len(as.Rhs) != 1 || len(as.Lhs) < 1 {
+				return true
+			}
+			c, ok := as.Rhs[0].(*ast.CallExpr)
+			if !ok {
+				return true
+			}
+			if key(c.Fun) == "os.Open" {
+				ofVar = ident(as.Lhs[0])
+			}
+			if sel, ok := c.Fun.(*ast.SelectorExpr); ok && sel.Sel.Name == "Stat" && len(c.Args) == 0 && ofVar != "" && ident(sel.X) == ofVar {
+				statVar = ident(as.Lhs[0])
+			}
+			if key(c.Fun) == "uint64" && len(c.Args) == 1 && len(as.Lhs) == 1 {
+				if c2, ok := c.Args[0].(*ast.CallExpr); ok && len(c2.Args) == 0 {
+					if sel, ok := c2.Fun.(*ast.SelectorExpr); ok && sel.Sel.Name == "Size" && statVar != "" && ident(sel.X) == statVar {
+						sizeVar = ident(as.Lhs[0])
+					}
+				}
+			}
+			return true
+		})
+	}
+	if sizeVar != "" && writes(fd.Body, sizeVar) != 1 {
+		die(fmt.Errorf("NewUnspentDb: the file-size variable %q is written %d times (expected the one `%s = uint64(%s.Size())`)", sizeVar, writes(fd.Body, sizeVar), sizeVar, statVar))
+	}
+	// record length: `<le>, … = ….ReadVLen(…)` … `Memory_Malloc(int(<le>))`, top-level statements of the loop body
+	lenVar, iLen, iMalloc := "", -1, -1
+	for i, st := range loop.Body.List {
+		if as, ok := st.(*ast.AssignStmt); ok && len(as.Rhs) == 1 && iLen < 0 {
+			if c, ok := as.Rhs[0].(*ast.CallExpr); ok {
+				if sel, ok := c.Fun.(*ast.SelectorExpr); ok && sel.Sel.Name == "ReadVLen" {
+					lenVar, iLen = ident(as.Lhs[0]), i
+				}
+			}
+		}
+		if iMalloc < 0 && has(st, func(n ast.Node) bool {
+			c, ok := n.(*ast.CallExpr)
+			return ok && key(c.Fun) == "Memory_Malloc"
+		}) {
+			iMalloc = i
+		}
+	}
+	if lenVar == "" || iMalloc <= iLen || !mentions(loop.Body.List[iMalloc], lenVar) {
+		die(fmt.Errorf("NewUnspentDb: `<le>, <er> = btc.ReadVLen(…)` followed by `Memory_Malloc(int(<le>))` at the top level of the record loop not found (length %q, statements %d, %d)", lenVar, iLen, iMalloc))
+	}
+	boundsLen := false
+	for _, st := range loop.Body.List[iLen+1 : iMalloc] {
+		if writes(st, lenVar) > 0 {
+			die(fmt.Errorf("NewUnspentDb: the record length %q is changed between ReadVLen and Memory_Malloc", lenVar))
+		}
+		is, ok := st.(*ast.IfStmt)
+		if !ok || !mentions(is.Cond, lenVar) {
+			continue
+		}
+		if is.Init == nil && is.Else == nil && sizeVar != "" && exceeds(is.Cond, lenVar, sizeVar) && endsInGoto(is.Body, fatalLabel) {
+			boundsLen = true
+		} else {
+			die(fmt.Errorf("NewUnspentDb: the test `%s` on the record length before Memory_Malloc is not understood (expected `if %s > <file size> { …; goto %s }`)", key(is.Cond), lenVar, fatalLabel))
+		}
+	}
+	// record count: the bound of the record loop, read with `&<cnt>` and tested before the maps are made
+	cntVar := ""
+	if be, ok := loop.Cond.(*ast.BinaryExpr); ok && be.Op == token.LSS {
+		cntVar = ident(be.Y)
+	}
+	if cntVar == "" {
+		die(fmt.Errorf("NewUnspentDb: the record loop's condition `%s` is not `<i> < <count>`", key(loop.Cond)))
+	}
+	iRead, iMaps := -1, -1
+	for i := iRedo; i < iLoop; i++ {
+		inner, _ := unlabel(top[i])
+		if has(inner, func(n ast.Node) bool {
+			u, ok := n.(*ast.UnaryExpr)
+			return ok && u.Op == token.AND && ident(u.X) == cntVar
+		}) {
+			iRead, iMaps = i, -1
+		}
+		if rs, ok := inner.(*ast.RangeStmt); ok && key(rs.X) == "db.HashMap" && iRead >= 0 && iMaps < 0 {
+			iMaps = i
+		}
+	}
+	if iRead < 0 || iMaps < 0 {
+		die(fmt.Errorf("NewUnspentDb: reading of the record count %q (%d) followed by the making of the maps (%d) not found", cntVar, iRead, iMaps))
+	}
+	boundsCount := false
+	for i := iRead + 1; i < iLoop; i++ {
+		inner, _ := unlabel(top[i])
+		if as, ok := inner.(*ast.AssignStmt); ok {
+			for _, l := range as.Lhs {
+				if ident(l) == cntVar {
+					die(fmt.Errorf("NewUnspentDb: the record count %q is changed after it was read", cntVar))
+				}
+			}
+		}
+		is, ok := inner.(*ast.IfStmt)
+		if !ok || i > iMaps || !mentions(is.Cond, cntVar) {
+			continue
+		}
+		if is.Init == nil && is.Else == nil && sizeVar != "" && exceeds(is.Cond, cntVar, sizeVar) && endsInGoto(is.Body, fatalLabel) {
+			boundsCount = true
+		} else {
+			die(fmt.Errorf("NewUnspentDb: the test `%s` on the record count before the maps are made is not understood (expected `if %s > <file size> { …; goto %s }`)", key(is.Cond), cntVar, fatalLabel))
+		}
+	}
 	lb := func(b bool) string {
 		if b {
 			return "true"
@@ -468,13 +639,14 @@ func main() {
 	sb.WriteString("/-- structural facts checked by the translator: recpool is [BUFFERS_CNT][RECS_PACK_SIZE]; the channel is made with\n    capacity CHANNEL_SIZE; the reader sends a full pack (index in the pack == len-1), rewinds the index and only then turns to\n    buffer (pool_idx+1) % BUFFERS_CNT; exactly one goroutine receives packs and walks each of them before receiving the next -/\ndef ringShapeChecked : Bool := true\n")
 	fmt.Fprintf(&sb, "\n/-- the retry (`%s:` … `%s:` … `goto %s`, once, with UTXO.old): what is certainly executed between a failed record loop\n    and the record loop of the next attempt. Variables by role: index in the pack `%s`, buffer number `%s`, pack `%s` of\n    `%s`, size counter `db.%s`. Every attempt makes its channel and derives the pack from the buffer number (checked). -/\n",
 		redoLabel, fatalLabel, redoLabel, recIdxName, poolIdxName, recsName, poolName, sizeField)
-	fmt.Fprintf(&sb, "def retryShape : GocoinV.UtxoRec.RetryShape :=\n  { buffers := buffersCnt, pack := recsPackSize,\n    rewindRecIdx := %s,   -- `%s = 0`\n    rewindPoolIdx := %s,  -- `%s = 0`\n    resetDataSize := %s,  -- `db.%s.Store(0)`\n    resetTotalTxs := %s,  -- `db.%s.Store(0)`\n    freshMaps := %s }     -- `for i := range db.HashMap { db.HashMap[i] = make(…) }` after the header\n",
-		lb(rewindRec), recIdxName, lb(rewindPool), poolIdxName, lb(resetSize), sizeField, lb(resetCount), countField, lb(freshMaps))
+	fmt.Fprintf(&sb, "def retryShape : GocoinV.UtxoRec.RetryShape :=\n  { buffers := buffersCnt, pack := recsPackSize,\n    rewindRecIdx := %s,   -- `%s = 0`\n    rewindPoolIdx := %s,  -- `%s = 0`\n    resetDataSize := %s,  -- `db.%s.Store(0)`\n    resetTotalTxs := %s,  -- `db.%s.Store(0)`\n    freshMaps := %s,     -- `for i := range db.HashMap { db.HashMap[i] = make(…) }` after the header\n    boundsCount := %s,   -- `if %s > %s { …; goto %s }` after the count is read, before the maps are made (%s = uint64(%s.Size()), %s = %s.Stat())\n    boundsLen := %s }    -- `if %s > %s { …; goto %s }` between ReadVLen and Memory_Malloc\n",
+		lb(rewindRec), recIdxName, lb(rewindPool), poolIdxName, lb(resetSize), sizeField, lb(resetCount), countField, lb(freshMaps),
+		lb(boundsCount), cntVar, sizeVar, fatalLabel, sizeVar, statVar, statVar, ofVar, lb(boundsLen), lenVar, sizeVar, fatalLabel)
 	sb.WriteString("\nend GocoinV.Gen.UtxoLoaderFacts\n")
 	out := vlib.Root() + "/lean/GocoinV/Gen/UtxoLoaderFacts.lean"
 	os.Remove(out)
 	if err := os.WriteFile(out, []byte(sb.String()), 0644); err != nil {
 		die(err)
 	}
-	fmt.Printf("FACTS %d\n", 14+genSharedFacts())
+	fmt.Printf("FACTS %d\n", 16+genSharedFacts())
 }
